@@ -21,6 +21,8 @@ pub struct OP {
     tiny_dfa: Option<Regex>,
     /// RegexBuilder(P).backtrack_limit(L) for small L
     limited: Vec<(usize, Regex)>,
+    /// (RegexBuilder(P).case_insensitive(true).backtrack_limit(L), RegexBuilder("(?i)"+P).backtrack_limit(L)) in both call orders
+    ci_limited: Vec<(usize, Regex, Regex, Regex)>,
     vm: bool,
     letters: bool,
 }
@@ -85,6 +87,23 @@ impl PatProp for Options {
                 Built::Panic(p) => return Prep::Fail(Fail::new("compile-panic", "Ok", p)),
             }
         }
+        let mut ci_limited = vec![];
+        if vm {
+            for lim in [0usize, 3] {
+                let a = engine::build_with(pat, |b| {
+                    b.case_insensitive(true).backtrack_limit(lim);
+                });
+                let a2 = engine::build_with(pat, |b| {
+                    b.backtrack_limit(lim).case_insensitive(true).delegate_size_limit(1 << 30);
+                });
+                let b = engine::build_with(&format!("(?i){}", pat), |b| {
+                    b.backtrack_limit(lim);
+                });
+                if let (Built::Ok(a), Built::Ok(a2), Built::Ok(b)) = (a, a2, b) {
+                    ci_limited.push((lim, a, a2, b));
+                }
+            }
+        }
         // delegate size limit: the build fails iff some delegated piece alone exceeds the limit
         let pieces: Vec<String> = if vm {
             engine::program_shape(pat).map(|(d, _)| d).unwrap_or_default()
@@ -131,7 +150,7 @@ impl PatProp for Options {
                 }
             }
         }
-        Prep::Ready(OP { plain, opt_ci, flag_ci, neutral, tiny_dfa, limited, vm, letters: letters_of(n) })
+        Prep::Ready(OP { plain, opt_ci, flag_ci, neutral, tiny_dfa, limited, ci_limited, vm, letters: letters_of(n) })
     }
 
     fn eval(&self, _ctx: &RunCtx, p: &OP, _n: &Node, t: &str, pos: usize) -> Verdict {
@@ -189,6 +208,16 @@ impl PatProp for Options {
             }
             limit_hit |= f == lim_err;
         }
+        // options combine: the case option must not make the backtrack limit disappear (or vice versa)
+        for (lim, a, a2, b) in &p.ci_limited {
+            let rb = engine::captures_from_pos(b, t, pos);
+            for (name, r) in [("case_insensitive + backtrack_limit", a), ("backtrack_limit + case_insensitive + size limit", a2)] {
+                let ra = engine::captures_from_pos(r, t, pos);
+                if ra != rb {
+                    return Verdict::Fail(Fail::new("option-combination", format!("(?i)P under backtrack_limit({}): {}", lim, rb.show()), format!("{}: {}", name, ra.show())));
+                }
+            }
+        }
         if limit_hit {
             return Verdict::Pass { nontrivial: p.vm, class: Some("backtrack_limit:hit") };
         }
@@ -233,7 +262,7 @@ fn cfg() -> gen::Cfg {
 pub fn run(ctx: &RunCtx) -> Outcome {
     let p = Options;
     let mut o = Outcome::default();
-    o.rule = "patterns over mixed-case literals {a,B}, classes, \\w, ., \\b, back-references, groups, atomic groups, four look-arounds, quantifiers and scoped (?i:..) / (?-i:..) groups (exhaustive trees by node count, proptest random ASTs); texts over {a,A,b,B} (<=4). Per (pattern, text, offset): RegexBuilder(P).case_insensitive(true) must equal Regex::new(\"(?i)\"+P) on captures (and find_iter); case_insensitive(false) + huge backtrack / size limits and a 1-byte DFA size limit must equal the plain pattern; under backtrack_limit 0 / 2 / 6 find_from_pos, captures_from_pos and is_match each return BacktrackLimitExceeded or the unlimited answer, and agree on which. Per VM pattern and delegate_size_limit L in {1, 3000, 40000}: the build fails (with InnerError; also when combined with a DFA size limit in either order) iff one of the delegated pieces of the program, built alone through regex::RegexBuilder::size_limit(L), fails. Non-trivial = VM-compiled pattern with a letter and a text that matches only case-insensitively. Distinct = distinct (pattern, text, offset).".into();
+    o.rule = "patterns over mixed-case literals {a,B}, classes, \\w, ., \\b, back-references, groups, atomic groups, four look-arounds, quantifiers and scoped (?i:..) / (?-i:..) groups (exhaustive trees by node count, proptest random ASTs); texts over {a,A,b,B} (<=4). Per (pattern, text, offset): RegexBuilder(P).case_insensitive(true) must equal Regex::new(\"(?i)\"+P) on captures (and find_iter); case_insensitive(false) + huge backtrack / size limits and a 1-byte DFA size limit must equal the plain pattern; under backtrack_limit 0 / 2 / 6 find_from_pos, captures_from_pos and is_match each return BacktrackLimitExceeded or the unlimited answer, and agree on which; case_insensitive(true) combined with backtrack_limit (either call order) equals (?i)P under the same limit. Per VM pattern and delegate_size_limit L in {1, 3000, 40000}: the build fails (with InnerError; also when combined with a DFA size limit in either order) iff one of the delegated pieces of the program, built alone through regex::RegexBuilder::size_limit(L), fails. Non-trivial = VM-compiled pattern with a letter and a text that matches only case-insensitively. Distinct = distinct (pattern, text, offset).".into();
     o.assumptions = vec![
         "regex::RegexBuilder::size_limit forwards to the same regex-automata NFA size limit that delegate_size_limit is documented to forward to".into(),
         "delegate_dfa_size_limit is only checked for not changing results (the regex crate maps its dfa_size_limit to a different knob)".into(),
